@@ -15,7 +15,7 @@ RULE = ("Cases = (routine, matrix, bin_swaps/itr, wei_freq, seed) for randmio_un
         "positive and negative entries per row and per column, exact sorted positive / negative weight multisets, empty diagonal, symmetry, and "
         "np.corrcoef of the input's and output's signed strength vectors recomputed independently. Non-trivial = output differs from the "
         "(diagonal-cleared) input and the input's signed degree sequence is not constant; distinct by hash of the case.")
-BOUNDS = {"n": "4..12 quick, 4..20 thorough"}
+BOUNDS = {"n": "4..12 quick, 4..20 thorough; up to 32 in the large units"}
 MIN_NONTRIVIAL = {"quick": 300, "thorough": 3000}
 
 
@@ -170,4 +170,6 @@ def cases(draw, name, nmax):
 def units(tier):
     nmax = 10 if tier == "quick" else 18
     return [Unit(name, check, strategy=(lambda nm=name: cases(nm, nmax)), examples=(1600, 32000), shards=(4, 16))
-            for name in ("randmio_und_signed", "randmio_dir_signed", "null_model_und_sign", "null_model_dir_sign")]
+            for name in ("randmio_und_signed", "randmio_dir_signed", "null_model_und_sign", "null_model_dir_sign")] + [
+        Unit("%s-n<=32" % name, check, strategy=(lambda nm=name: cases(nm, 32)), examples=(24, 400), shards=(4, 4))
+        for name in ("randmio_und_signed", "randmio_dir_signed", "null_model_und_sign", "null_model_dir_sign")]
